@@ -32,7 +32,8 @@ def gen_op(rng, gd, dist, layers, ic):
     k = rng.random()
     if k < 0.2:
         return ("bfs", {"max_diameter": rng.choice([1, 2, 1000000]), "return_all_hashes": rng.random() < 0.5, "return_all_edges": rng.random() < 0.3,
-                        "max_layer_size_to_store": rng.choice([None, 1, 1000]), "start_states": rng.choice([None, [st]])})
+                        "max_layer_size_to_store": rng.choice([None, 1, 1000]), "start_states": rng.choice([None, [st]]),
+                        "scribble": rng.random() < 0.5, "start_as_tensor": rng.random() < 0.4})
     if k < 0.3:
         return ("find_path_to", {"depth": rng.randint(0, 3), "state": st})
     if k < 0.38:
@@ -42,7 +43,7 @@ def gen_op(rng, gd, dist, layers, ic):
                                 "history_depth": rng.choice([0, 2]), "return_path": rng.random() < 0.5})
     if k < 0.62:
         return ("random_walks", {"width": rng.choice([1, 3]), "length": rng.choice([2, 4]), "mode": rng.choice(["classic", "bfs", "nbt"]), "seed": rng.randrange(1000),
-                                 "start_state": rng.choice([None, st])})
+                                 "start_state": rng.choice([None, st]), "scribble": rng.random() < 0.5})
     if k < 0.7:
         return ("inverted_neighbors", {"state": st})
     if k < 0.78:
@@ -69,7 +70,21 @@ def do_op(graph, gd, op, args):
     from cayleypy.algo import MeetInTheMiddle
     try:
         if op == "bfs":
-            return ("ok", bfs_summary(graph.bfs(**args)))
+            kw = {k: v for k, v in args.items() if k not in ("scribble", "start_as_tensor")}
+            buf = None
+            if args.get("start_as_tensor") and kw.get("start_states") is not None:
+                buf = torch.tensor(kw["start_states"], dtype=torch.int64)
+                kw["start_states"] = buf
+            r = graph.bfs(**kw)
+            out = bfs_summary(r)
+            if args.get("scribble"):
+                # the caller owns what it was given and what it got back: writing into them must not reach the graph object
+                for t in r.layers.values():
+                    if isinstance(t, torch.Tensor) and t.numel():
+                        t.fill_(-3)
+                if buf is not None:
+                    buf.fill_(-5)
+            return ("ok", out)
         if op in ("find_path_to", "find_path_from"):
             ball = graph.bfs(max_diameter=args["depth"], return_all_hashes=True)
             f = graph.find_path_to if op == "find_path_to" else graph.find_path_from
@@ -83,10 +98,14 @@ def do_op(graph, gd, op, args):
             r = graph.beam_search(**kw)
             return ("ok", [bool(r.path_found), int(r.path_length), canon(r.path)])
         if op == "random_walks":
-            kw = {k: v for k, v in args.items() if k != "seed"}
+            kw = {k: v for k, v in args.items() if k not in ("seed", "scribble")}
             torch.manual_seed(args["seed"])
             x, y = graph.random_walks(**kw)
-            return ("ok", [canon(x), canon(y)])
+            out = [canon(x), canon(y)]
+            if args.get("scribble"):
+                x.fill_(-3)
+                y.fill_(-3)
+            return ("ok", out)
         if op == "inverted_neighbors":
             gi = graph.with_inverted_generators
             return ("ok", [canon(gi.get_neighbors_decoded(torch.tensor([args["state"]]))), canon(gi.hasher.make_hashes(gi.encode_states(args["state"])))])
